@@ -686,3 +686,69 @@ func ruleW4(c *Ctx) {
 		}
 	}
 }
+
+// ---------- F4 ----------
+
+func init() {
+	register("F4", "freeze flags are set only by freezing: every store to a `frozen` flag (a bool field, or the bool behind a `frozen` pointer field) writes the constant true from inside a Freeze method (which then descends, F1/F2) or the constant false; a flag is never computed or copied from another object's flag, which would mark a value frozen without freezing what it holds", 4, ruleF4)
+	claim("C04", "F4")
+	claim("C20", "F4")
+}
+
+func ruleF4(c *Ctx) {
+	n := 0
+	for _, fn := range c.P.Funcs {
+		if !isProdPkg(fnPkgPath(fn)) {
+			continue
+		}
+		fn := fn
+		eachInstr(fn, func(in ssa.Instruction) {
+			st, ok := in.(*ssa.Store)
+			if !ok {
+				return
+			}
+			owner := ""
+			switch a := st.Addr.(type) {
+			case *ssa.FieldAddr:
+				stt, _ := deref(a.X.Type()).Underlying().(*types.Struct)
+				if stt == nil || stt.Field(a.Field).Name() != "frozen" {
+					return
+				}
+				if b, ok := stt.Field(a.Field).Type().Underlying().(*types.Basic); !ok || b.Kind() != types.Bool {
+					return
+				}
+				owner = qualType(a.X.Type())
+			case *ssa.UnOp:
+				// *x.frozen = ...
+				fa, ok := a.X.(*ssa.FieldAddr)
+				if !ok || a.Op != token.MUL {
+					return
+				}
+				stt, _ := deref(fa.X.Type()).Underlying().(*types.Struct)
+				if stt == nil || stt.Field(fa.Field).Name() != "frozen" {
+					return
+				}
+				owner = qualType(fa.X.Type())
+			default:
+				return
+			}
+			n++
+			key := fmt.Sprintf("%s: store %s.frozen", fnName(fn), owner)
+			pos := c.P.Pos(st.Pos())
+			k, isConst := st.Val.(*ssa.Const)
+			switch {
+			case !isConst:
+				c.viol(key, pos, "the freeze flag is computed (copied or combined from other flags) instead of being set by Freeze: the value is marked frozen although the values it holds were never frozen, and its own Freeze will skip them")
+			case k.Value != nil && k.Value.String() == "false":
+				c.ok(key, pos, "resets the flag to false")
+			case strings.EqualFold(outermost(fn).Name(), "freeze"):
+				c.ok(key, pos, "constant true inside a Freeze method")
+			default:
+				c.viol(key, pos, "the freeze flag is set outside a Freeze method: nothing guarantees that the contained values are frozen too")
+			}
+		})
+	}
+	if n < 4 {
+		c.anchorFail("only %d stores to freeze flags found", n)
+	}
+}
